@@ -296,6 +296,70 @@ def check_bench(gate, nin, operands=None):
     return dict(failed=False, observed='ok', expected='ok')
 
 
+def check_bench_order(order=0):
+    """a small sequential ISCAS circuit (two DFFs, one of them driving a primary OUTPUT, a gate reading a DFF
+    output, a DFF reading a DFF) with its statements in different orders - .bench files are netlists, the
+    order of the lines carries no meaning"""
+    import pyrtl
+    import random
+    lines = ['Q1 = DFF(G0)', 'Q2 = DFF(N1)', 'N1 = AND(Q1, G1)', 'Y = OR(Q2, Q1)', 'Q3 = DFF(Q2)', 'Z = NOT(Q3)']
+    if order == 1:
+        lines = lines[::-1]
+    elif order >= 2:
+        random.Random(order).shuffle(lines)
+    text = 'INPUT(G0)\nINPUT(G1)\nOUTPUT(Y)\nOUTPUT(Z)\nOUTPUT(Q2)\n' + '\n'.join(lines) + '\n'
+    pyrtl.reset_working_block()
+    try:
+        with contextlib.redirect_stdout(io.StringIO()):
+            pyrtl.input_from_iscas_bench(text)
+    except Exception as e:
+        return dict(failed=True, observed='%s: %s' % (type(e).__name__, str(e)[:100]),
+                    expected='imports', bench=text)
+    sim = pyrtl.Simulation()
+    q1 = q2 = q3 = 0
+    rnd = random.Random(7)
+    for t in range(12):
+        g0, g1 = rnd.getrandbits(1), rnd.getrandbits(1)
+        sim.step({'G0': g0, 'G1': g1})
+        exp = dict(Y=q2 | q1, Z=1 - q3, Q2=q2)
+        got = {k: sim.inspect(k) for k in exp}
+        if got != exp:
+            return dict(failed=True, observed=dict(cycle=t, **got), expected=exp, bench=text)
+        q1, q2, q3 = g0, q1 & g1, q2
+    return dict(failed=False, observed='ok', expected='ok')
+
+
+def check_blif_order(order=0, merge=True):
+    """the same sequential circuit as check_bench_order in BLIF (latches with initial values 1 / 0 / 2 / none,
+    a latch reading a latch, a latch driving a primary output), its commands in different orders"""
+    import pyrtl
+    import random
+    blocks = ['.latch g0 q1 re clk 1', '.latch n1 q2 re clk 0', '.names q1 g1 n1\n11 1',
+              '.names q2 q1 y\n1- 1\n-1 1', '.latch q2 q3 re clk 2', '.names q3 z\n0 1', '.latch q3 q4 re clk',
+              '.names q4 v\n1 1']
+    if order == 1:
+        blocks = blocks[::-1]
+    elif order >= 2:
+        random.Random(order).shuffle(blocks)
+    blif = '.model top\n.inputs clk g0 g1\n.outputs y z q2 v\n' + '\n'.join(blocks) + '\n.end\n'
+    try:
+        _import_blif(blif, merge)
+    except Exception as e:
+        return dict(failed=True, observed='%s: %s' % (type(e).__name__, str(e)[:100]), expected='imports', blif=blif)
+    sim = pyrtl.Simulation()
+    q1, q2, q3, q4 = 1, 0, 0, 0
+    rnd = random.Random(11)
+    for t in range(12):
+        g0, g1 = rnd.getrandbits(1), rnd.getrandbits(1)
+        sim.step({'g0': g0, 'g1': g1})
+        exp = dict(y=q2 | q1, z=1 - q3, q2=q2, v=q4)
+        got = {k: sim.inspect(k) for k in exp}
+        if got != exp:
+            return dict(failed=True, observed=dict(cycle=t, **got), expected=exp, blif=blif)
+        q1, q2, q3, q4 = g0, q1 & g1, q2, q3
+    return dict(failed=False, observed='ok', expected='ok')
+
+
 def check_wide_vector(n=12, merge=True, order='asc'):
     """bit-indexed vector ports wider than 10 bits (index order is numeric, not lexicographic);
     the bits may be declared in any order on the .inputs / .outputs lines"""
